@@ -2014,6 +2014,11 @@ class LazyCryptContext(CryptContext):
                 # another thread finished while we waited for the lock,
                 # or this is a nested call made by __init__() below.
                 return
+            schemes = kwds.get("schemes")
+            if schemes is not None and not isinstance(schemes, (list, tuple, str)):
+                # a one-shot iterator: keep what it yields, so that a first
+                # attempt which fails half-way can be repeated.
+                kwds["schemes"] = list(schemes)
             if "onload" in kwds:
                 kwds = dict(kwds)
                 onload = kwds.pop("onload")
